@@ -45,6 +45,16 @@ pub fn doc_yaml(v: &J) -> Result<Y, String> {
             }
             Y::Mapping(m)
         }
+        "nest" => {
+            let k = str_of(&v["k"])?;
+            let mut y = doc_yaml(&v["v"])?;
+            for _ in 0..v["n"].as_u64().unwrap_or(0) {
+                let mut m = Mapping::new();
+                m.insert(Y::String(k.clone()), y);
+                y = Y::Mapping(m);
+            }
+            y
+        }
         x => return Err(format!("unknown document tag {:?}", x)),
     })
 }
